@@ -9,6 +9,17 @@ def _registry():
 
 
 def run_one(args):
+    t0 = time.time()
+    if os.environ.get('VERIF_TASKLOG'):
+        with open(os.environ['VERIF_TASKLOG'], 'a') as fh: fh.write('%d start %s %s\n' % (os.getpid(), args[0], args[1]))
+    out = _run_one(args)
+    if os.environ.get('VERIF_TASKLOG'):
+        with open(os.environ['VERIF_TASKLOG'], 'a') as fh: fh.write('%d done %s %s %.1f\n' % (os.getpid(), args[0], args[1], time.time() - t0))
+    out['wall_s'] = round(time.time() - t0, 1)
+    return out
+
+
+def _run_one(args):
     key, cfg, tier, seed = args
     import z3
     from vc.contract import verify_cfg
@@ -111,7 +122,7 @@ def run_tasks(tasks, tier, seed, nproc=None):
     args = [(k, c, tier, seed) for (k, c) in tasks]
     if nproc == 1 or len(args) == 1: return [run_one(a) for a in args]
     ctx = mp.get_context('fork')
-    with ctx.Pool(nproc) as pool:
+    with ctx.Pool(nproc, maxtasksperchild=1) as pool:          # a fresh process (fresh z3 context) per task: no cross-task solver state
         return pool.map(run_one, args, chunksize=1)
 
 
